@@ -135,6 +135,10 @@ def cmd_check(prop, tier, jobs):
             elif rec["instances"] == 0 or rec["unsat"] == 0:
                 verdict = "vacuous"
             xf = [f for f in xc.get("fails", []) if f[0] == name]
+            if verdict in ("undecided", "vacuous") and xf:
+                # the solvers left it open, but the native run of the same contract on the real code fails: a concrete counterexample
+                verdict = "refuted"
+                rec["replay"] = {"confirmed": True, "source": "native-cross-check (solvers returned unknown for this obligation)", "inputs": xf[0][1]}
             if verdict == "discharged" and xf:
                 # proved under assumed callee contracts / library contracts, yet the contract fails natively on the
                 # real code: a concrete counterexample exists, so this is reported as a violation of the obligation
@@ -156,6 +160,8 @@ def cmd_check(prop, tier, jobs):
                                 "seconds": round(rec["seconds"], 3), "note": h.note})
         if xc.get("n_errors"):
             undecided.append((h.name, "*", "cross-check raised", xc["errors"][:1]))
+        if xc.get("tried", 0) > 0 and xc.get("ran", 0) == 0 and not xc.get("n_errors"):
+            undecided.append((h.name, "*", "cross-check vacuous", ["no native sample satisfied the harness's assumptions"]))
     rc = 0
     for name, f in known_hit:
         print(f"KNOWN-FINDING: property={prop} obligation={name} {f['what']}")
